@@ -813,6 +813,52 @@ def r10k(rep, F):
     rep.require_count('R10k', 'abstract k-centres runs', runs, 500)
 
 
+class OneErase(paths.Client):
+    """auto = number of single-position erases on the path (capped at 2)"""
+    track = 'none'
+
+    def __init__(self):
+        self.exits = []
+
+    def init(self, fn):
+        return 0
+
+    def on_node(self, fn, node, auto, ctx):
+        if (node.get('callee') or '').endswith('vector::erase') and len(args(fn, node)) == 1:
+            return min(2, auto + 1)
+        return auto
+
+    def at_exit(self, fn, ret, auto, ctx):
+        v = None
+        if ret is not None and ret['ch']:
+            r = fn.strip(ret['ch'][0])
+            if r is not None and r['k'] == 'CXXBoolLiteralExpr':
+                v = r.get('v') in (True, 'true', 1)
+        self.exits.append((v, auto, ctx.path()))
+
+
+def r10l(rep, F):
+    rep.rule('R10l', 'NearestNeighborsLinear::remove (inherited by the square-root structure) removes ONE occurrence: the structure holds a '
+                     'multiset, so the function contains no bulk removal (std::remove / remove_if, a two-iterator erase, clear) and every '
+                     'path that returns true has erased exactly one position, every path that returns false none')
+    fn = pick(F, 'ompl::NearestNeighborsLinear::remove', 'NearestNeighborsLinear<int>')[0]
+    bulk = [c for c in fn.walk() if (c.get('callee') or '') in ('std::remove', 'std::remove_if', 'std::vector::clear', 'std::erase', 'std::erase_if') or
+            ((c.get('callee') or '').endswith('vector::erase') and len(args(fn, c)) >= 2)]
+    rep.add('R10l', label(fn), 'no-bulk-removal', not bulk, fn.where(bulk[0]) if bulk else fn.loc,
+            'no bulk removal' if not bulk else
+            '%s removes every element equal to the argument (or a range): removing one copy of an element stored n > 1 times drops all n, so '
+            'size() and list() no longer equal the multiset' % bulk[0]['callee'].split('::')[-1])
+    cl = OneErase()
+    paths.run_function(fn, cl, F)
+    if not cl.exits or all(v is None for v, _, _ in cl.exits):
+        raise AnalysisBroken('R10l: returns of NearestNeighborsLinear::remove are not boolean literals')
+    bad = next(((v, k, p) for v, k, p in cl.exits if (v is True and k != 1) or (v is False and k != 0)), None)
+    if not bulk:
+        rep.add('R10l', label(fn), 'one-erase-per-success', bad is None, fn.loc,
+                'true after exactly one erase(position), false after none (%d paths)' % len(cl.exits) if bad is None else
+                'a path returns %s after erasing %s positions' % (bad[0], bad[1] if bad[1] < 2 else 'two or more'), bad[2] if bad else None)
+
+
 def run(rep):
     F = facts.load_units(INST)
     rep.units.update(INST)
@@ -828,3 +874,4 @@ def run(rep):
     r10g(rep, F)
     r10j(rep, F)
     r10k(rep, F)
+    r10l(rep, F)
